@@ -8,10 +8,10 @@ from .common import (HARNESS, OUT, ROOT, SPEC, ToolError, build_harness, ensure_
                      tlc_cached)
 
 CLASSES = {
-    "C06": {"result", "state", "invariant", "query", "panic", "digest", "ret", "trace"},
+    "C06": {"result", "state", "invariant", "query", "panic", "digest", "ret", "trace", "listing"},
     "C01": {"encode_class", "encode_invalid", "encode_panic"},
     "C02": {"wiring"},
-    "C03": {"interface"},
+    "C03": {"interface", "listing"},
 }
 
 MODELS = {
@@ -20,6 +20,8 @@ MODELS = {
     ("core", "thorough"): "MC_Graph_core_t.cfg",
     ("ver", "quick"): "MC_Graph_ver_q.cfg",
     ("ver", "thorough"): "MC_Graph_ver_t.cfg",
+    ("shape", "quick"): "MC_Graph_shape_q.cfg",
+    ("shape", "thorough"): "MC_Graph_shape_t.cfg",
 }
 
 
@@ -96,10 +98,89 @@ def sample_lines(path, want=(40, 5000, 30000)):
     return out
 
 
+def tlc_validate_trace(trace_path, module, cfg, timeout=1200):
+    """TLC as trace validator.  Returns (accepted, rejected_at_event_index_or_None, event, states)."""
+    env = dict(os.environ)
+    env["TRACE_FILE"] = trace_path
+    env["JAVA_TOOL_OPTIONS"] = "-Xss1g -Dtlc2.tool.queue.IStateQueue=StateDeque"
+    meta = os.path.join(OUT, "tlc_trace_meta_%d" % os.getpid())
+    cmd = ["timeout", str(timeout), "tlc", "-workers", "1", "-metadir", meta, "-cleanup", "-noGenerateSpecTE",
+           "-config", cfg, module + ".tla"]
+    r = subprocess.run(cmd, cwd=SPEC, env=env, stdout=subprocess.PIPE, stderr=subprocess.STDOUT)
+    import shutil
+    shutil.rmtree(meta, ignore_errors=True)
+    text = r.stdout.decode(errors="replace")
+    import re
+    m = re.search(r"(\d+) states generated, (\d+) distinct states found", text)
+    states = int(m.group(2)) if m else 0
+    rej = re.search(r'<<"TRACE-REJECTED", (\d+), "(.*)">>', text)
+    if rej:
+        ev = rej.group(2).replace('\\"', '"').replace("\\\\", "\\")
+        return False, int(rej.group(1)), ev, states
+    if "Model checking completed. No error has been found." in text and r.returncode == 0:
+        return True, None, None, states
+    if "Invariant" in text and "is violated" in text:
+        return False, -1, text[-1500:], states
+    raise ToolError("trace validation did not complete:\n" + text[-2500:])
+
+
+def traces(lib, tier):
+    """random driver -> ndjson events -> TLC (TraceGraph) checks they are a behaviour of GraphAbs"""
+    ensure_libs()
+    build_harness()
+    runs, length, max_nodes = (60, 100, 8) if tier == "quick" else (800, 250, 12)
+    tdir = os.path.join(OUT, "traces")
+    os.makedirs(tdir, exist_ok=True)
+    path = os.path.join(tdir, f"graph-{lib}-{tier}-{seed()}.ndjson")
+    r = subprocess.run([hbin("drive"), "graph-random", "--lib", lib, "--data", os.path.join(HARNESS, "data"),
+                        "--seed", str(seed()), "--runs", str(runs), "--len", str(length),
+                        "--max-nodes", str(max_nodes), "--out", path],
+                       stdout=subprocess.PIPE, stderr=subprocess.PIPE)
+    if r.returncode != 0:
+        raise ToolError("driver failed: " + r.stderr.decode(errors="replace")[-2000:])
+    findings, summary = [], None
+    for line in r.stdout.decode().splitlines():
+        v = json.loads(line)
+        if v.get("summary"):
+            summary = v
+        else:
+            findings.append(v)
+    validated_events = 0
+    rejected = 0
+    cur = path
+    for attempt in range(6):
+        ok, at, ev, states = tlc_validate_trace(cur, "TraceGraph", f"TraceGraph_{lib}.cfg")
+        if ok:
+            validated_events += states - 1
+            break
+        rejected += 1
+        with open(cur) as f:
+            lines = f.readlines()
+        # the run that contains the rejected event, for the replay file
+        start = max(i for i in range(0, min(at, len(lines))) if '"a":"reset"' in lines[i]) if at > 0 else 0
+        findings.append({"class": "trace", "what": f"event {at} is not a step of the contract: {ev}",
+                         "hist": [json.loads(l).get("o") for l in lines[start + 1:at]][-40:],
+                         "op": json.loads(lines[at - 1]).get("o") if 0 < at <= len(lines) else None,
+                         "trace_file": path, "event_index": at})
+        # drop that run and validate the rest
+        end = next((i for i in range(at, len(lines)) if '"a":"reset"' in lines[i]), len(lines))
+        validated_events += start
+        rest = lines[:start] + lines[end:]
+        cur = path + f".rest{attempt}"
+        with open(cur, "w") as f:
+            f.writelines(rest)
+        if not rest:
+            break
+    summary = dict(summary or {}, validated_events=validated_events, rejected_runs=rejected, trace_file=path)
+    return findings, summary
+
+
 def run_property(prop, tier, report):
     # core: every operation kind over a small library; ver: versioned interface names (semver
     # tracks, shared implicit imports, explicit imports on a track) with the packages pre-registered
-    libs = ["core", "ver"]
+    # shape: encode-relevant shapes (import-less package, repeated instantiation, type items,
+    # anonymous compound tuple element), creation operations only
+    libs = ["core", "ver", "shape"]
     total_states = total_trans = 0
     summaries = {}
     samples = []
@@ -114,7 +195,15 @@ def run_property(prop, tier, report):
         summaries[lib]["tlc_wall_s_when_generated"] = stats["wall_s"]
         summaries[lib]["findings_per_class"] = summary.get("per_class", {})
         samples += sample_lines(stats["path"])
+    tsum = {}
+    if prop in ("C06", "C01"):
+        # implementation -> specification: long random histories over more nodes than TLC explores
+        for lib in libs:
+            tf, ts = traces(lib, tier)
+            report.add_findings([f for f in tf if f["class"] in CLASSES[prop]], f"graph-trace-{lib}")
+            tsum[lib] = ts
     cov = report.coverage
+    cov["random_traces"] = tsum
     cov["samples"] = samples
     cov["states"] = total_states
     cov["transitions"] = total_trans
